@@ -19,7 +19,11 @@ class LoopSpec:
     types: {local name: 'int'|'bool'|'str'|'real'|'value'|'keep'} overriding the default havoc typing
     """
 
-    def __init__(self, invariant, heap='havoc', decreases=None, types=None, header=None):
+    def __init__(self, invariant, heap='havoc', decreases=None, types=None, header=None, lemmas=None, body_check=None,
+                 keeps_owned=False):
+        self.body_check = body_check   # body_check(L, events) -> obligations about the ghost events of one iteration
+        self.keeps_owned = keeps_owned   # unescaped temporaries stay owned across iterations (checked per body)
+        self.lemmas = lemmas      # lemmas(L) -> definitional instances of spec functions assumed at the loop head
         self.invariant = invariant
         self.heap = heap
         self.decreases = decreases
@@ -93,11 +97,12 @@ def _havoc_val(ip, name, cur, how):
     return S(v)
 
 
-def inductive_loop(ip, frame, st, spec, seq):
+def inductive_loop(ip, frame, st, spec, seq, tag=None):
     ctx = ip.ctx
     qual = frame.qual
-    ordn = ip.loop_ordinal(frame, st)
-    tag = f'{qual}.loop{ordn}'
+    if tag is None:
+        ordn = ip.loop_ordinal(frame, st)
+        tag = f'{qual}.loop{ordn}'
     if spec.header is not None:
         seg = ip.repo.modules[frame.module].segment(st.iter if isinstance(st, ast.For) else st.test)
         if ' '.join(seg.split()) != ' '.join(spec.header.split()):
@@ -119,6 +124,9 @@ def inductive_loop(ip, frame, st, spec, seq):
     if spec.heap != 'unchanged':
         ctx.heap = ctx.fresh_heap('loop')
         ctx.assume(ctx.heap.alloc >= heap0.alloc)
+        # containers allocated before the loop that the loop body may touch are described by the invariant;
+        # ownership information does not survive the havoc
+        ctx.owned = [o for o in ctx.owned if spec.keeps_owned]
     for name in sorted(names):
         v = frame.env[name]
         if isinstance(v, S):
@@ -129,23 +137,40 @@ def inductive_loop(ip, frame, st, spec, seq):
     view = LoopView(ip, frame, frame.env, ctx.heap, env0, heap0, k)
     for label, f in _labelled(spec.invariant(view)):
         ctx.assume(f)
+    if spec.lemmas is not None:
+        for label, f in _labelled(spec.lemmas(view)):
+            ctx.assume(f)
     heap_head = ctx.heap
+    owned_head = list(ctx.owned)
     measure0 = spec.decreases(view) if spec.decreases is not None else None
     if is_for:
         go = ctx.branch(k < seq[1](ctx.heap))
     else:
         go = ctx.test(ip.eval(frame, st.test))
     if not go:
+        ctx.ghost.setdefault('events', []).append({'kind': 'loop-done', 'loop': tag, 'k': k, 'heap_before': heap0,
+                                                    'heap_after': ctx.heap})
         ip.exec_block(frame, st.orelse)
         return
     if is_for:
         ip.assign(frame, st.target, seq[2](ctx.heap, k))
+    ev0 = len(ctx.ghost.setdefault('events', []))
+    ctx.ghost['events'].append({'kind': 'loop-body-begin', 'loop': tag, 'k': k})
     try:
         ip.exec_block(frame, st.body)
     except _Break:
+        ctx.ghost['events'].append({'kind': 'loop-break', 'loop': tag})
         return
     except _Continue:
         pass
+    if spec.body_check is not None:
+        viewb = LoopView(ip, frame, frame.env, ctx.heap, env0, heap0, k)
+        for label, f in _labelled(spec.body_check(viewb, ctx.ghost['events'][ev0 + 1:])):
+            ctx.oblige(f'{tag}.body.{label}', f if z3.is_expr(f) else z3.BoolVal(bool(f)), kind='loop-body')
+    if spec.keeps_owned:
+        for kind, ref in owned_head:
+            if not any(kk == kind and rr.eq(ref) for kk, rr in ctx.owned):
+                raise OutOfReach(f'{tag}: a temporary assumed unescaped escapes in the loop body')
     view2 = LoopView(ip, frame, frame.env, ctx.heap, env0, heap0, (k + 1) if is_for else None)
     for label, f in _labelled(spec.invariant(view2)):
         ctx.oblige(f'{tag}.preserve.{label}', f, kind='loop-preserve')
@@ -195,12 +220,42 @@ def genexp_list(ip, gen):
     return _map_list(ip, frame, node)
 
 
+def comp_ordinal(frame, node):
+    if frame.fn_node is None:
+        return None
+    n = 0
+    for x in ast.walk(frame.fn_node):
+        if isinstance(x, ast.ListComp):
+            if x is node:
+                return n
+            n += 1
+    return None
+
+
 def listcomp(ip, frame, node):
     hook = ip.ctx.cfg.hooks.get('listcomp')
     if hook is not None:
         r = hook(ip, frame, node)
         if r is not None:
             return r
+    spec = ip.ctx.cfg.loop_specs.get((frame.qual, f'comp{comp_ordinal(frame, node)}'))
+    if spec is not None:
+        # [E for T in IT]  ==  tmp = []; for T in IT: tmp.append(E)   (desugared, then treated as an inductive loop)
+        g = _single_gen(node)
+        if g.ifs:
+            raise OutOfReach('filtered comprehension as an inductive loop')
+        tmp = f'__comp{comp_ordinal(frame, node)}'
+        frame.env[tmp] = S(ip.ctx.alloc_list([]))
+        body = ast.Expr(value=ast.Call(func=ast.Attribute(value=ast.Name(id=tmp, ctx=ast.Load()), attr='append', ctx=ast.Load()),
+                                       args=[node.elt], keywords=[]))
+        loop = ast.For(target=g.target, iter=g.iter, body=[body], orelse=[], lineno=node.lineno, col_offset=node.col_offset)
+        ast.fix_missing_locations(loop)
+        seq = iteration(ip, ip.eval(frame, g.iter))
+        if seq[0] == 'concrete':
+            ip.exec(frame, loop)
+        else:
+            inductive_loop(ip, frame, loop, spec, seq, tag=f'{frame.qual}.comp{comp_ordinal(frame, node)}')
+        return frame.env[tmp]
     return _map_list(ip, frame, node)
 
 
